@@ -17,7 +17,7 @@ one() {
 }
 export -f one
 # two changes of one property must not run at the same time (they share out/shards/<pid>-* files): run the -1 set, then the -2 set
-for suffix in 1 2 3 4 5; do
+for suffix in 1 2 3 4 5 6 7 8 9; do
   printf '%s\n' $ids | grep -- "-$suffix\$" | xargs -r -P 4 -I{} bash -c "one {} $V"
 done
 git -C /repo worktree prune
